@@ -256,4 +256,128 @@ def nBatch : List NRow → List NRow → Option (List NRow)
     | none => none
     | some s' => nBatch s' xs
 
+/-! ### federation states (`federation_state_replication.go`, driven by `IndexReplicator.Replicate`)
+
+    The third instance of the merge walk: key = the datacenter name (Go string `<`), nothing is
+    skipped, and there is NO content hash — an object on both sides is upserted iff its remote
+    ModifyIndex is above the last index (`same` is constantly false). One Raft apply per object
+    (`PerformDeletions` / `PerformUpdates`); the table is keyed by the lower-cased datacenter
+    (`StringFieldIndex{Lowercase: true}`). The upserted copy carries the primary's ModifyIndex
+    (`PrimaryModifyIndex`): an `Item` is copied whole, so `mod` of a row written by a round is the
+    remote ModifyIndex. -/
+
+def fedCfg : Cfg Bytes Unit := { lt := bytesLt, skip := fun _ => false, same := fun _ _ => false }
+
+def fedRnd : Rnd Bytes Unit :=
+  { cfg := fedCfg, fold := lowerBytes, noRepl := fun _ => false, delBatch := 1, upsLimit := 1 }
+
+/-! ### faults inside a round: rejected applies and a cancelled context
+
+    `rej s o`   the secondary's store, holding `s`, rejects apply `o` (the FSM returns an error; the
+                Raft entry is committed all the same and the store is unchanged)
+    `cancelAt`  which poll of `ctx.Done()` finds the context cancelled: poll 0 is the one right
+                after the fetch, the following ones sit BETWEEN two applies of the same phase
+                (`if i < len-1` / `if batchEnd < lenPending`): there is none after the last apply
+                of a phase, hence none between the deletion and the upsert phase.
+    `perItem`   `reconcileLocalConfig`, `PerformDeletions/Updates`: one apply per object, walking the
+                UNFILTERED diff list; an exempt kind (exported-services) is skipped with `continue`,
+                before the poll, and the "is this the last one" test counts it.
+    `failFast`  ACL and federation-state rounds return at the first failed apply; config entries
+                collect the errors (`multierror`), go on with the remaining deletions AND with the
+                upsert phase, and fail at the end. -/
+
+structure RndX (κ η : Type) extends Rnd κ η where
+  perItem  : Bool
+  failFast : Bool
+
+structure Fault (κ η : Type) where
+  rej      : List (Item κ η) → Op κ η → Bool
+  cancelAt : Option Nat
+
+def noFault : Fault κ η := { rej := fun _ _ => false, cancelAt := none }
+
+structure St (κ η : Type) where
+  store  : List (Item κ η)
+  tried  : List (Op κ η)      -- Raft applies issued, in order (a rejected apply is a log entry too)
+  nchk   : Nat                -- polls of the context made so far
+  failed : Bool
+  exited : Bool
+
+def stepOp (fold : κ → κ) (F : Fault κ η) (st : St κ η) (o : Op κ η) : St κ η :=
+  if F.rej st.store o then { st with tried := st.tried ++ [o], failed := true }
+  else { st with store := execOp fold st.store o, tried := st.tried ++ [o] }
+
+def poll (F : Fault κ η) (st : St κ η) : St κ η :=
+  { st with nchk := st.nchk + 1, exited := st.exited || F.cancelAt == some (st.nchk + 1) }
+
+/-- one apply loop (`none` = an entry the loop `continue`s over) -/
+def runPhase (fold : κ → κ) (F : Fault κ η) (ff : Bool) : List (Option (Op κ η)) → St κ η → St κ η
+  | [], st => st
+  | none :: rest, st => runPhase fold F ff rest st
+  | some o :: rest, st =>
+    if ((stepOp fold F st o).failed && ff) || rest.isEmpty then stepOp fold F st o
+    else if (poll F (stepOp fold F st o)).exited then poll F (stepOp fold F st o)
+    else runPhase fold F ff rest (poll F (stepOp fold F st o))
+
+def phaseDels (X : RndX κ η) (last ridx : Nat) (l r : List (Item κ η)) : List (Option (Op κ η)) :=
+  if X.perItem then
+    (diff X.cfg (effLast last ridx) (sortBy X.cfg.lt l) (sortBy X.cfg.lt r)).1.map
+      fun k => if X.noRepl k then none else some (Op.del [k])
+  else (batches X.delBatch (fun _ => 1) (roundDels X.toRnd last ridx l r)).map fun b => some (Op.del b)
+
+def phaseUps (X : RndX κ η) (last ridx : Nat) (l r : List (Item κ η)) : List (Option (Op κ η)) :=
+  if X.perItem then
+    let u := (diff X.cfg (effLast last ridx) (sortBy X.cfg.lt l) (sortBy X.cfg.lt r)).2
+    ((sortBy X.cfg.lt r).filter fun x => u.contains x.id).map
+      fun x => if X.noRepl x.id then none else some (Op.ups [x])
+  else (batches X.upsLimit Item.size (roundUps X.toRnd last ridx l r)).map fun b => some (Op.ups b)
+
+/-- one round under faults -/
+def roundRun (X : RndX κ η) (F : Fault κ η) (last ridx : Nat) (l r : List (Item κ η)) : St κ η :=
+  if F.cancelAt = some 0 then { store := l, tried := [], nchk := 0, failed := false, exited := true }
+  else
+    let st1 := runPhase X.fold F X.failFast (phaseDels X last ridx l r)
+      { store := l, tried := [], nchk := 0, failed := false, exited := false }
+    if st1.exited || (st1.failed && X.failFast) then st1
+    else runPhase X.fold F X.failFast (phaseUps X last ridx l r) st1
+
+/-- what the round returns -/
+inductive Ret where
+  | exit            -- (0, true, nil): the replicator routine returns
+  | error           -- (0, false, err): the replicator retries from index 0
+  | idx (n : Nat)
+deriving Repr, DecidableEq
+
+def runRet (ridx : Nat) (st : St κ η) : Ret :=
+  if st.exited then .exit else if st.failed then .error else .idx ridx
+
+def aclX : RndX Bytes Bytes := { aclRnd with perItem := false, failFast := true }
+def cfgX : RndX CKey Nat := { cfgRnd with perItem := true, failFast := false }
+def fedX : RndX Bytes Unit := { fedRnd with perItem := true, failFast := true }
+
+/-! ### the one store constraint of config entries that is modelled: the protocol of a split service
+
+    `validateProposedConfigEntryInServiceGraph` compiles the discovery chain of every service the
+    write touches. Fragment modelled (the kinds the harness generates for it): a service-splitter
+    for service `n` needs `n` to speak an HTTP-like protocol, which here can only come from
+    service-defaults `n` (content 1 = Protocol "http", anything else = the default "tcp").
+      * upsert of a splitter is rejected unless service-defaults `n` with http is in the store
+      * upsert of service-defaults `n` without http is rejected while a splitter `n` is in the store
+      * deletion of service-defaults `n` is rejected while a splitter `n` is in the store
+    (rows are looked up by the lower-cased name, as the store does). -/
+
+def kindSD : Bytes := [115,101,114,118,105,99,101,45,100,101,102,97,117,108,116,115]        -- "service-defaults"
+def kindSplit : Bytes := [115,101,114,118,105,99,101,45,115,112,108,105,116,116,101,114]    -- "service-splitter"
+
+def hasHttp (s : List (Item CKey Nat)) (n : Bytes) : Bool :=
+  s.any fun y => y.id.1 == kindSD && lowerBytes y.id.2 == lowerBytes n && y.val == 1
+
+def hasSplit (s : List (Item CKey Nat)) (n : Bytes) : Bool :=
+  s.any fun y => y.id.1 == kindSplit && lowerBytes y.id.2 == lowerBytes n
+
+def cfgRej (s : List (Item CKey Nat)) : Op CKey Nat → Bool
+  | .del [k] => k.1 == kindSD && hasSplit s k.2 && s.any (fun y => y.id.1 == kindSD && lowerBytes y.id.2 == lowerBytes k.2)
+  | .ups [x] => (x.id.1 == kindSplit && !hasHttp s x.id.2) || (x.id.1 == kindSD && x.val != 1 && hasSplit s x.id.2)
+  | _ => false
+
 end CV.Repl
